@@ -12,6 +12,11 @@
 // to (memstores, WAL, table readers), each with the kind (read / write / atomic), the locks held at that point
 // (local acquisitions + the locks every caller holds: fixed point over the package call graph) and the thread
 // kinds that can execute it; plus the call edges, spawn edges and a few order facts the hand-off rules rely on.
+// The body of a DEFERRED function literal is walked where the `defer` statement stands (with the locks whose release was
+// deferred earlier); its events in openOrder / closeOrder carry the prefix "defer:", and in DB.Open its accesses and calls
+// count as made AFTER every `go` statement (thread kind `opener <number of go statements>`) — unless the literal is
+// `if <named error result> != nil { … }` and Open can return an error only before its first `go` statement (errorOnlyDefer),
+// in which case they stay `opener 0`.
 //
 // Purity.lean: for the documented thread-safe read paths of recordio.MMapReader, sstables.SSTableReader,
 // SliceKeyIndex and SuperSSTableReader: every assignment to a receiver field or package-level variable on the
@@ -174,14 +179,101 @@ type walker struct {
 	frames []frame
 	phase  int
 	track  bool // record events
+	// inside the body of a deferred function literal (runs at frame exit): events are recorded with a "defer:" prefix; in
+	// DB.Open the accesses / call edges made there get the FINAL phase of the function (they run after every `go` statement
+	// of it, whatever the position of the `defer` statement: end of pass 3) — unless the literal runs its body only on
+	// frames that never reached a `go` statement (errorOnlyDefer)
+	deferDepth                int
+	deferredAcc, deferredEdge []int
 }
 
 func (w *walker) top() *frame { return &w.frames[len(w.frames)-1] }
 
 func (w *walker) event(s string) {
 	if w.track {
+		if w.deferDepth > 0 {
+			s = "defer:" + s
+		}
 		w.fn.events = append(w.fn.events, s)
 	}
+}
+
+// errorOnlyDefer: the deferred literal `fl` of function `fd` does something only when fd returns an error, and fd returns
+// errors only BEFORE its first `go` statement.  Syntactic conditions (all of them):
+//   - fd's last result is a NAMED result E; the body of fl is the single statement `if E != nil { … }` (no else);
+//   - every `return` of fd itself (not of a nested literal) that stands after the first `go` statement returns the literal
+//     `nil` in the last position, and E is not assigned after the first `go` statement.
+//
+// Then the body of the `if` runs only on frames that started no goroutine (edfc7e7: DB.Open gives the loaded tables back).
+func errorOnlyDefer(fd *ast.FuncDecl, fl *ast.FuncLit) bool {
+	if fd.Type.Results == nil || len(fd.Type.Results.List) == 0 {
+		return false
+	}
+	last := fd.Type.Results.List[len(fd.Type.Results.List)-1]
+	if len(last.Names) == 0 {
+		return false
+	}
+	errName := last.Names[len(last.Names)-1].Name
+	if len(fl.Body.List) != 1 {
+		return false
+	}
+	is, ok := fl.Body.List[0].(*ast.IfStmt)
+	if !ok || is.Init != nil || is.Else != nil {
+		return false
+	}
+	b, ok := is.Cond.(*ast.BinaryExpr)
+	if !ok || b.Op != token.NEQ {
+		return false
+	}
+	x, okx := b.X.(*ast.Ident)
+	y, oky := b.Y.(*ast.Ident)
+	if !okx || !oky || x.Name != errName || y.Name != "nil" {
+		return false
+	}
+	firstGo := token.NoPos
+	ast.Inspect(fd.Body, func(n ast.Node) bool {
+		if g, ok := n.(*ast.GoStmt); ok && (firstGo == token.NoPos || g.Pos() < firstGo) {
+			firstGo = g.Pos()
+		}
+		return true
+	})
+	if firstGo == token.NoPos {
+		return true
+	}
+	fine := true
+	var visit func(n ast.Node) bool
+	visit = func(n ast.Node) bool {
+		switch v := n.(type) {
+		case *ast.FuncLit:
+			return false // returns of nested literals are not returns of fd (an assignment to E in there is not looked for:
+			// literals after the first go statement make the rule fail below)
+		case *ast.ReturnStmt:
+			if v.Pos() > firstGo {
+				if len(v.Results) == 0 {
+					fine = false
+				} else if id, ok := v.Results[len(v.Results)-1].(*ast.Ident); !ok || id.Name != "nil" {
+					fine = false
+				}
+			}
+		case *ast.AssignStmt:
+			if v.Pos() > firstGo {
+				for _, l := range v.Lhs {
+					if id, ok := l.(*ast.Ident); ok && id.Name == errName {
+						fine = false
+					}
+				}
+			}
+		}
+		return true
+	}
+	ast.Inspect(fd.Body, visit)
+	ast.Inspect(fd.Body, func(n ast.Node) bool {
+		if l, ok := n.(*ast.FuncLit); ok && l.Pos() > firstGo {
+			fine = false
+		}
+		return true
+	})
+	return fine
 }
 
 func (w *walker) rec(obj, via, kind string, pos token.Pos) {
@@ -303,7 +395,18 @@ func (w *walker) stmt(s ast.Stmt) {
 			// runs at frame exit: only locks whose release was deferred EARLIER are certainly still held
 			saved := w.held
 			w.held = w.held & w.top().deferred
+			na, ne := len(w.fn.accesses), len(w.fn.edges)
+			w.deferDepth++
 			w.funcLit(fl, true)
+			w.deferDepth--
+			if !(w.phase == 0 && len(w.frames) == 1 && errorOnlyDefer(w.fn.decl, fl)) {
+				for i := na; i < len(w.fn.accesses); i++ {
+					w.deferredAcc = append(w.deferredAcc, i)
+				}
+				for i := ne; i < len(w.fn.edges); i++ {
+					w.deferredEdge = append(w.deferredEdge, i)
+				}
+			}
 			w.held = saved
 			for _, a := range x.Call.Args {
 				w.expr(a)
@@ -852,6 +955,15 @@ func genAccess(repo string) string {
 			}
 		}
 		w.block(fi.decl.Body.List)
+		if n == "DB.Open" {
+			// deferred literals run at frame exit: after all `go` statements of Open
+			for _, i := range w.deferredAcc {
+				fi.accesses[i].phase = w.phase
+			}
+			for _, i := range w.deferredEdge {
+				fi.edges[i].phase = w.phase
+			}
+		}
 	}
 
 	// roots and thread kinds
